@@ -236,8 +236,141 @@ UNITS = [
                   'memunit_advance / memunit_step of the underlying iterators follow the address model (see C03)']),
 ]
 
+# ---------------------------------------------------------------------------------------------------------------------------------------
+# nth_channel_view / kth_channel_view of basic (memory-based) views: the `adjacent` dispatch predicate and both make() bodies
+R_CH = [('R12.sit', r'x_iterator_t sit\(x_iterator_base_t\((.*?)\),src\.pixels\(\)\.pixel_size\(\)\);', r'gloc_t sit = step_iterator_ctor(\1, PIXEL_SIZE(&src->loc));', True),
+        ('R12.view', r'return type\(src\.dimensions\(\),locator_t\(sit, src\.pixels\(\)\.row_size\(\)\)\);', 'return view_ctor_dims(view_dimensions(src), loc_from_xit(sit, ROW_SIZE(&src->loc)));', True),
+        ('R6.drop_using', r'using \w+\s*=[^;]+;', '', True),
+        ('R11.chan_n', r'&\(src\(0,0\)\[n\]\)', 'CHAN_ADDR(src, n)', False), ('R11.chan_k', r'&gil::at_c<K>\(src\(0,0\)\)', 'CHAN_ADDR(src, K)', False)]
+R_CHT = [('R12.interleaved', r'return interleaved_view\(src\.width\(\),src\.height\(\),\(x_iterator_t\)(.*?), src\.pixels\(\)\.row_size\(\)\);', r'return interleaved_view_ch(src->w, src->h, \1, ROW_SIZE(&src->loc));', True),
+         ('R6.drop_using', r'using \w+\s*=[^;]+;', '', True),
+         ('R11.chan_n', r'&\(src\(0,0\)\[n\]\)', 'CHAN_ADDR(src, n)', False), ('R11.chan_k', r'&gil::at_c<K>\(src\(0,0\)\)', 'CHAN_ADDR(src, K)', False)]
+R_ADJ = [('R8.is_step', r'iterator_is_step<src_x_iterator>::value', 'IS_STEP', True), ('R8.is_planar', r'is_planar<src_x_iterator>::value', 'IS_PLANAR', True),
+         ('R8.nch', r'num_channels<View>::value', 'NUM_CHANNELS', True)]
+X_CH = [X('nth_make_false', F, r'struct __nth_channel_view_basic<View,false> \{.*?static type make\(View const& src, int n\) \{', count=1, rules=R_CH),
+        X('nth_make_true', F, r'struct __nth_channel_view_basic<View,true> \{.*?static type make\(View const& src, int n\) \{', count=1, rules=R_CHT),
+        X('kth_make_false', F, r'struct __kth_channel_view_basic<K,View,false> \{.*?static type make\(View const& src\) \{', count=1, rules=R_CH),
+        X('kth_make_true', F, r'struct __kth_channel_view_basic<K,View,true> \{.*?static type make\(View const& src\) \{', count=1, rules=R_CHT),
+        X('nth_adjacent', F, r'struct __nth_channel_view<View,true>\s*\{.*?static constexpr bool adjacent =(.*?);', kind='expr', rules=R_ADJ),
+        X('kth_adjacent', F, r'struct __kth_channel_view<K,View,true>\s*\{.*?static constexpr bool adjacent =(.*?);', kind='expr', rules=R_ADJ),
+        ] + [x for x in X_LOC if x.ident in ('loc_row_size', 'loc_pixel_size')]
+C_CH = r'''
+typedef ptrdiff_t coord_t;
+typedef struct { int64_t a, sx, sy; } gloc_t;                 /* ghost memory-based locator (address, pixel step, row step) in memory units = bytes */
+typedef struct gview_s { ptrdiff_t w, h; gloc_t loc; } gview_t;
+#define MEMUNIT_STEP_Y(self) ((self)->sy)
+#define MEMUNIT_STEP_X(self) ((self)->sx)
+#define SMAX ((int64_t)1 << 40)
+#define CMAX ((int64_t)1 << 20)
+ptrdiff_t ROW_SIZE(const gloc_t* self) @@loc_row_size@@
+ptrdiff_t PIXEL_SIZE(const gloc_t* self) @@loc_pixel_size@@
+/* address of channel c of the pixel a locator points at: a + c * sizeof(channel) for interleaved pixels; for planar pixels plane c lives at an
+   arbitrary distance g_plane[c] from plane 0, and all planes share the strides (planar_pixel_iterator advances every plane pointer alike, C03) */
+int64_t g_plane; int g_n;          /* ghost: the channel under consideration and, for planar pixels, the distance of its plane */
+#define CH_OFF(c) (IS_PLANAR ? g_plane : (int64_t)(c) * CHAN_SIZE)
+int64_t CHAN_ADDR(const gview_t* v, int c) { __CPROVER_assert(c == g_n, "ghost: the address asked for is that of the channel under consideration"); return v->loc.a + CH_OFF(c); }
+gview_t view_ctor_dims(point_t dims, gloc_t loc) { gview_t v; v.w = dims.x; v.h = dims.y; v.loc = loc; return v; }
+point_t view_dimensions(const gview_t* v) { point_t p; p.x = v->w; p.y = v->h; return p; }
+/* memory_based_step_iterator(base, step): at the address of base, stepping by `step` memory units */
+gloc_t step_iterator_ctor(int64_t base, ptrdiff_t step) { gloc_t r; r.a = base; r.sx = step; r.sy = 0; return r; }
+/* memory_based_2d_locator(x_iterator xit, row_bytes) : _p(xit, row_bytes) */
+gloc_t loc_from_xit(gloc_t xit, ptrdiff_t row_bytes) { gloc_t r; r.a = xit.a; r.sx = xit.sx; r.sy = row_bytes; return r; }
+/* interleaved_view(w, h, channel_t* pixels, rowsize): a view over plain gray pixels - the x step is sizeof(channel) */
+gview_t interleaved_view_ch(ptrdiff_t w, ptrdiff_t h, int64_t pixels, ptrdiff_t rowsize) { gview_t v; v.w = w; v.h = h; v.loc.a = pixels; v.loc.sx = CHAN_SIZE; v.loc.sy = rowsize; return v; }
+gview_t nth_make_false(const gview_t* src, int n) @@nth_make_false@@
+gview_t nth_make_true(const gview_t* src, int n) @@nth_make_true@@
+#define K g_k
+int g_k;
+gview_t kth_make_false(const gview_t* src) @@kth_make_false@@
+gview_t kth_make_true(const gview_t* src) @@kth_make_true@@
+/* __nth_channel_view<View,true>::make / __kth_channel_view<K,View,true>::make: dispatch on the constant `adjacent` */
+gview_t nth_channel_view(const gview_t* src, int n) { if (@@nth_adjacent@@) return nth_make_true(src, n); return nth_make_false(src, n); }
+gview_t kth_channel_view(const gview_t* src) { if (@@kth_adjacent@@) return kth_make_true(src); return kth_make_false(src); }
+#ifndef VERIF_NATIVE
+#define ADDR(v, x, y) ((v).loc.a + (y) * (v).loc.sy + (x) * (v).loc.sx)
+/* a view of this source type: arbitrary strides when its x iterator is a step iterator, the fixed pixel step of the iterator type otherwise */
+#define VIEWOK(v) (0 <= (v).w && (v).w <= CMAX && 0 <= (v).h && (v).h <= CMAX && -SMAX <= (v).loc.a && (v).loc.a <= SMAX && -SMAX <= (v).loc.sx && (v).loc.sx <= SMAX && -SMAX <= (v).loc.sy && (v).loc.sy <= SMAX && \
+                   (IS_STEP || (v).loc.sx == STATIC_XSTEP))
+#define INSIDE(v, x, y) (0 <= (x) && (x) < (v).w && 0 <= (y) && (y) < (v).h)
+#define PLANES_OK (-SMAX <= g_plane && g_plane <= SMAX)
+void hz_nth_channel_view(void){ gview_t s; ptrdiff_t x, y; int n; __CPROVER_assume(VIEWOK(s)); __CPROVER_assume(PLANES_OK); __CPROVER_assume(0 <= n && n < NUM_CHANNELS); g_n = n;
+  gview_t r = nth_channel_view(&s, n); __CPROVER_assume(INSIDE(r, x, y));
+  __CPROVER_assert(r.w == s.w && r.h == s.h, "nth_channel_view.ensures: the dimensions of the source");
+  __CPROVER_assert(INSIDE(s, x, y), "nth_channel_view.ensures: the source coordinate lies inside the source view");
+  __CPROVER_assert(ADDR(r, x, y) == ADDR(s, x, y) + CH_OFF(n), "nth_channel_view.ensures: pixel (x,y) is channel n of source pixel (x,y), same address (shallow)");
+  __CPROVER_assert(0, "VACUITY"); }
+void hz_kth_channel_view(void){ gview_t s; ptrdiff_t x, y; int k; __CPROVER_assume(VIEWOK(s)); __CPROVER_assume(PLANES_OK); __CPROVER_assume(0 <= k && k < NUM_CHANNELS); g_k = k; g_n = k;
+  gview_t r = kth_channel_view(&s); __CPROVER_assume(INSIDE(r, x, y));
+  __CPROVER_assert(r.w == s.w && r.h == s.h, "kth_channel_view.ensures: the dimensions of the source");
+  __CPROVER_assert(ADDR(r, x, y) == ADDR(s, x, y) + CH_OFF(k), "kth_channel_view.ensures: pixel (x,y) is channel K of source pixel (x,y), same address (shallow)");
+  __CPROVER_assert(0, "VACUITY"); }
+/* the extracted `adjacent` expression is the one the compiler used: the real nth_channel_view_type<View>::type has a step x-iterator iff !adjacent */
+void h_dispatch(void){
+  __CPROVER_assert(RESULT_NTH_IS_STEP == !(@@nth_adjacent@@), "nth_channel_view: the result type is the step view exactly when `adjacent` is false (extracted predicate == compiled predicate)");
+  __CPROVER_assert(RESULT_KTH_IS_STEP == !(@@kth_adjacent@@), "kth_channel_view: the result type is the step view exactly when `adjacent` is false");
+  __CPROVER_assert(0, "VACUITY"); }
+#endif
+'''
+PROBE_CH_PRE = r'''
+template <typename V, bool Step> struct xstep { static long get() { return 0; } };
+template <typename V> struct xstep<V, false> { static long get() { return (long)memunit_step(typename V::x_iterator()); } };
+'''
+PROBE_CH = r'''
+  typedef typename SRCV::x_iterator xit;
+  P_VAL("IS_STEP", (int)iterator_is_step<xit>::value); P_VAL("IS_PLANAR", (int)is_planar<xit>::value); P_VAL("NUM_CHANNELS", (int)num_channels<SRCV>::value);
+  P_VAL("CHAN_SIZE", (int)sizeof(typename channel_type<SRCV>::type)); P_VAL("STATIC_XSTEP", (xstep<SRCV, iterator_is_step<xit>::value>::get()));
+  P_VAL("RESULT_NTH_IS_STEP", (int)iterator_is_step<typename nth_channel_view_type<SRCV>::type::x_iterator>::value);
+  P_VAL("RESULT_KTH_IS_STEP", (int)iterator_is_step<typename kth_channel_view_type<0, SRCV>::type::x_iterator>::value);
+'''
+REPLAY_CH = r'''
+// native replay: nth_channel_view / kth_channel_view of real views of the instantiated source type built over one buffer: direct, flipped,
+// subsampled, transposed sources; every channel address compared with the source pixel's channel address
+#include <boost/gil.hpp>
+#include <vector>
+#include "vreplay.hpp"
+using namespace boost::gil;
+#include "inst.hpp"
+template <typename S> static int chk(S const& s, const char* what) { int bad = 0;
+  for (int n = 0; n < (int)num_channels<S>::value && !bad; n++) { auto r = nth_channel_view(s, n);
+    if (r.dimensions() != s.dimensions()) { std::printf("REPRODUCED: nth_channel_view dimensions differ (%s)\n", what); return 1; }
+    for (long y = 0; y < s.height() && !bad; y++) for (long x = 0; x < s.width() && !bad; x++)
+      if ((const void*)&r(x, y)[0] != (const void*)&s(x, y)[n]) { std::printf("REPRODUCED: nth_channel_view(%s, %d)(%ld,%ld) is not channel %d of source pixel (%ld,%ld): off by %td bytes\n", what, n, x, y, n, x, y, (const char*)&r(x, y)[0] - (const char*)&s(x, y)[n]); bad = 1; } }
+  { auto r = kth_channel_view<0>(s);
+    for (long y = 0; y < s.height() && !bad; y++) for (long x = 0; x < s.width() && !bad; x++)
+      if ((const void*)&r(x, y)[0] != (const void*)&at_c<0>(s(x, y))) { std::printf("REPRODUCED: kth_channel_view<0>(%s)(%ld,%ld) is not channel 0 of source pixel (%ld,%ld)\n", what, x, y, x, y); bad = 1; } }
+  return bad; }
+template <typename V> struct make_src;
+template <typename V, bool Planar = is_planar<typename V::x_iterator>::value, int N = num_channels<V>::value> struct base_view;
+template <typename V, int N> struct base_view<V, false, N> { typedef typename V::value_type px; typedef typename view_type_from_pixel<px, false>::type type;
+  static type make(std::vector<unsigned char>& buf, long W, long H) { buf.assign((sizeof(px) * W + 5) * H + 16, 0); return interleaved_view(W, H, (px*)buf.data(), sizeof(px) * W + 5); } };
+template <typename V> struct base_view<V, true, 3> { typedef typename channel_type<V>::type ch; typedef typename view_type<ch, typename V::value_type::layout_t, true, false, true>::type type;
+  static type make(std::vector<unsigned char>& buf, long W, long H) { long row = sizeof(ch) * W + 6; buf.assign(3 * row * H + 16, 0);
+    return planar_rgb_view(W, H, (ch*)buf.data(), (ch*)(buf.data() + row * H), (ch*)(buf.data() + 2 * row * H), row); } };
+template <typename V, typename B> static int run(B const& b, std::true_type /* step source type */) { int bad = 0;
+  bad |= chk(V(flipped_left_right_view(b)), "flipped_left_right source"); if (!bad) bad |= chk(V(subsampled_view(b, 2, 1)), "subsampled(2,1) source");
+  if (!bad) bad |= chk(V(transposed_view(b)), "transposed source"); if (!bad) bad |= chk(V(rotated180_view(b)), "rotated180 source"); return bad; }
+template <typename V, typename B> static int run(B const& b, std::false_type) { return chk(V(b), "plain source") || chk(V(flipped_up_down_view(b)), "flipped_up_down source") || chk(V(subimage_view(b, 1, 0, b.width() - 1, b.height())), "subimage source"); }
+int main(int argc, char** argv){ vr::parse(argc, argv); int bad = 0;
+  for (long W = 1; W <= 6 && !bad; W++) for (long H = 1; H <= 5 && !bad; H++) { std::vector<unsigned char> buf; auto b = base_view<SRCV>::make(buf, W, H);
+    bad |= run<SRCV>(b, std::integral_constant<bool, iterator_is_step<typename SRCV::x_iterator>::value>()); }
+  if (bad) return 1;
+  NOT_REPRODUCED("nth_channel_view / kth_channel_view address every channel of every source pixel exactly"); }
+'''
+CH_SOURCES = [('gray8', 'gray8_view_t'), ('gray8_step', 'gray8_step_view_t'), ('rgb8', 'rgb8_view_t'), ('rgb8_step', 'rgb8_step_view_t'),
+              ('rgb8_planar', 'rgb8_planar_view_t'), ('rgb8_planar_step', 'rgb8_planar_step_view_t'), ('rgb16_planar_step', 'rgb16_planar_step_view_t'),
+              ('bgra8', 'bgra8_view_t'), ('gray16_step', 'gray16_step_view_t'), ('rgba16', 'rgba16_view_t')]
+UNITS.append(Unit('channel_view', 'C02', C_CH, extracts=X_CH, replay=REPLAY_CH, probe=PROBE_CH, probe_pre=PROBE_CH_PRE, probe_includes=['boost/gil.hpp'],
+                  insts=[(n, 'quick', {'T_SRCV': t}) for n, t in CH_SOURCES],
+                  checks=[Check('nth_channel_view', 'hz_nth_channel_view', engine='Z', timeout=300, inputs=('x', 'y', 'n')),
+                          Check('kth_channel_view', 'hz_kth_channel_view', engine='Z', timeout=300, inputs=('x', 'y', 'k')),
+                          Check('dispatch', 'h_dispatch', engine='D', timeout=120)],
+                  preconditions=['views: 0 <= w,h <= 2^20, |address|, |strides|, |plane distances| <= 2^40 bytes; channel index inside the pixel'],
+                  assumed=['&(src(0,0)[n]) / &at_c<K>(src(0,0)) is the address of the locator plus n * sizeof(channel) (interleaved) or plus the distance of plane n (planar); all planes share the strides',
+                           'memory_based_step_iterator(base, step), memory_based_2d_locator(xit, row_bytes) and interleaved_view(w, h, ptr, row_bytes) store their arguments; a plain channel pointer steps by sizeof(channel)',
+                           'a non-step x-iterator type steps by memunit_step(x_iterator()) (probe: sizeof(pixel) interleaved, sizeof(channel) planar)']))
+
 META = dict(
-    not_covered=['nth_channel_view / kth_channel_view (pointer to channel n of pixel (0,0) with the source strides): template lowering not built',
+    not_covered=['nth_channel_view / kth_channel_view of non-basic views (nth_channel_deref_fn adaptor path)',
                  'color_converted_view: value-level, belongs to C09 (color_convert_deref_fn)',
                  'virtual_2d_locator / position_iterator step constructors', 'extension/dynamic_image view factories (C14, not applicable)'],
 )
